@@ -5,6 +5,9 @@ from ..valgen import Gen, copy_value, type_exact_eq
 from ..condgen import CondGen
 from ..rulegen import RuleGen
 from . import schema_common as sc
+from ..pathterms import PathT, Prim
+from ..ruleterms import RuleT
+from ..terms import Leaf, Null, Bin
 from .c05 import make_case as rule_case
 
 PROP = "C15"
@@ -37,6 +40,43 @@ def cast_doc(g, depth=3):
             return doc
 
 
+def cross_cast(g, rg, doc):
+    """A schema in which a later rule looks, through a data-path argument, at a node that an earlier rule casts: every rule of a
+    schema is judged on the ONE copy that holds all casts made so far."""
+    strs = []
+
+    def walk(v, path):
+        if isinstance(v, str):
+            strs.append(path)
+        elif isinstance(v, (list, dict)) and len(path) < 4:
+            for k, x in (enumerate(v) if isinstance(v, list) else v.items()):
+                if isinstance(k, (str, int, float)) and not isinstance(k, bool):
+                    walk(x, path + (k,))
+    walk(doc, ())
+    if not strs:
+        return None
+    x = g.r.choice(strs)
+    xp = PathT([Prim(k) for k in x])
+    r1 = rg.rule(doc, cast_p=0.0)
+    r1 = RuleT(PathT([Prim(k) for k in x]), r1.cond if g.r.random() < 0.5 else Null(), [g.r.choice(["int", "bool", "int"])])
+    r2 = rg.rule(doc, cast_p=0.0)
+    m = g.r.choice(["equal_to", "not_equal_to", "less_than", "greater_than_or_equal_to", "in_", "is_instance"])
+    cls = "Value"
+    if m == "in_":
+        arg = [xp, g.scalar()]
+    elif m == "is_instance":
+        cls, m, arg = "ValueDataType", "equal_to", PathT([Prim(k) for k in x], ["dtype"])
+    else:
+        arg = xp
+    lf = Leaf(cls, m, [arg])
+    cond = lf if g.r.random() < 0.6 else Bin(g.r.choice(["and", "or"]), lf, r2.cond)
+    r2 = RuleT(r2.path, cond, [g.r.choice(["int", "bool"])] if g.r.random() < 0.8 else [])
+    rts = [r1, r2]
+    if g.r.random() < 0.3:
+        rts.insert(g.r.randint(0, 2), rg.rule(doc, cast_p=0.5))
+    return rts
+
+
 def run(tier, seed, model_ok, spec_ok, replay=None):
     g = Gen(seed)
     rg = RuleGen(CondGen(g))
@@ -48,7 +88,9 @@ def run(tier, seed, model_ok, spec_ok, replay=None):
             rt = rg.rule(doc, cast_p=1.0)
             c = rule_case(rt, doc)
         else:
-            rts = [rg.rule(doc, cast_p=0.8) for _ in range(g.r.choice([1, 2, 3]))]
+            rts = [rg.rule(doc, cast_p=0.8, path_args_p=0.15) for _ in range(g.r.choice([1, 2, 3]))]
+            if g.r.random() < 0.25:
+                rts = cross_cast(g, rg, doc) or rts
             c = sc.make_case(rts, doc)
             if c and c.outcome[0] == "ok":
                 before = copy_value(doc)
